@@ -23,10 +23,6 @@ import vlib, asm_gen, asm2_gen, layout_monitor
 BUDGETS = [1, 2, 3, 4, 5, 10, 11, 30]
 F70_TEXT = ("with the static-value optimisation a label-free program converges in pass 1, without it in pass 2: at budget 1 "
             "`#d8 1` assembles with the optimisation and fails (`did not converge`) with --debug-no-optimize-static")
-PANIC_TEXT = {
-    "F48": "bank window end (outp + size) overflows usize: debug panic in check_bank_overlap (the model predicts the panic)",
-    "F61": "outp + position of a label / #res overflows usize: debug panic in get_output_position (the model predicts the panic)",
-}
 
 
 class Runner2:
@@ -85,7 +81,6 @@ def correspondence(chk, R, rng, n, tag, need_banks=False):
     ndis = 0
     ok_idx = []
     first_pass = []
-    panic_b1 = []
     nlay_bad = 0
     for i, ((p, b, s, m), a, mo) in enumerate(zip(progs, ia, ma)):
         ci, cm = asm2_gen.canon_impl(a), asm2_gen.canon_model(mo)
@@ -101,16 +96,8 @@ def correspondence(chk, R, rng, n, tag, need_banks=False):
             chk.nontriv(text)
         if ci[0] not in ("OK", "ERR"):
             dist["panic"] += 1
-            pc = asm2_gen.panic_class(p)
-            if ci[0] == "PANIC" and pc and cm[0] == "PANIC":
-                # the model predicts the crash: plain `+` on usize in output/mod.rs / iter.rs get_output_position
-                chk.known(pc, PANIC_TEXT[pc])
-                continue
-            if ci[0] == "PANIC" and pc and s and b == 1 and cm[0] == "ERR":
-                # static optimisation at budget 1: the implementation gets past the resolver in one pass (F70) and then
-                # panics; the model (optimisation off) must predict the same panic at budget 2 -- checked below
-                panic_b1.append(i)
-                continue
+            # F48 / F61 are fixed (/repo abbd199, 6fb2301): neither the code nor the model panics on a window end or an
+            # output position that is not representable; the edge family keeps those inputs as a regression
             chk.violation("implementation crashed or was inconsistent (%s)" % ci[0], rep)
             continue
         dist["ok" if ci[0] == "OK" else "err"] += 1
@@ -150,16 +137,6 @@ def correspondence(chk, R, rng, n, tag, need_banks=False):
                               {"kind": "program2", "program": icases[i][0], "budget": b, "static_opt": s, "matcher_opt": m, "impl": ia[i][:3000], "model": mo2[:3000]}, found=False)
             else:
                 chk.known("F70", F70_TEXT)
-    if panic_b1:
-        ma3 = R.model_run([(progs[i][0], 2, progs[i][3]) for i in panic_b1])
-        for i, mo3 in zip(panic_b1, ma3):
-            p, b, s, m = progs[i]
-            if mo3.split("\t")[0] == "PANIC":
-                chk.known(asm2_gen.panic_class(p), PANIC_TEXT[asm2_gen.panic_class(p)])
-                chk.known("F70", F70_TEXT)
-            else:
-                chk.violation("implementation crashed (PANIC) where the model at budget 2 says %s" % mo3[:100],
-                              {"kind": "program2", "program": icases[i][0], "budget": b, "static_opt": s, "matcher_opt": m, "impl": ia[i][:3000], "model": mo3[:3000]})
     # certificate on the implementation's own claimed results (sized symbols come from asmtext)
     sa = R.impl([icases[i] for i in ok_idx], binary="asmtext")
     cert_cases = []
@@ -211,11 +188,7 @@ def budgets_and_switches(chk, R, rng, n, tag):
         rep = {"kind": "budgets2", "program": text, "static_opt": s, "matcher_opt": m, "budgets": BUDGETS,
                "impl": [str(sig(r))[:300] + " it=%s" % r[2] for r in res]}
         if any(r[0] not in ("OK", "ERR") for r in res):
-            pc = asm2_gen.panic_class(p)
-            if pc and mod[-1][0] == "PANIC" and all(r[0] == mo[0] or (s and BUDGETS[j] == 1 and mo[0] == "ERR") for j, (r, mo) in enumerate(zip(res, mod))):
-                chk.known(pc, PANIC_TEXT[pc])
-            else:
-                chk.violation("implementation crashed or was inconsistent at some budget", rep)
+            chk.violation("implementation crashed or was inconsistent at some budget", rep)
             continue
         oks = [j for j, r in enumerate(res) if r[0] == "OK"]
         dist["never_ok" if not oks else "always_ok" if len(oks) == k else "budget_dependent"] += 1
@@ -264,14 +237,6 @@ def budgets_and_switches(chk, R, rng, n, tag):
             if b == 1 and res[0][0] == "ERR" and res[1][0] == "ERR" and res[2][0] == "OK" and res[2][2] == 1 and sig(res[2]) == sig(res[3]):
                 chk.known("F70", F70_TEXT)
                 continue
-            pc = asm2_gen.panic_class(progs[pi][0])
-            if b == 1 and pc and res[0][0] == "ERR" and res[1][0] == "ERR" and res[2][0] == "PANIC" and res[3][0] == "PANIC":
-                # F70 x F48/F61: one pass suffices with the optimisation, then the known panic; without it the same panic at budget 2
-                again = R.impl([(sw[pi * 4][0], 2, False, False)])[0]
-                if again.split("\t")[0] == "PANIC":
-                    chk.known("F70", F70_TEXT)
-                    chk.known(pc, PANIC_TEXT[pc])
-                    continue
             chk.violation("the optimisation switches change the result",
                           {"kind": "switches2", "program": sw[pi * 4][0], "budget": sw[pi * 4][1],
                            "impl(static,matching)=(0,0),(0,1),(1,0),(1,1)": [str(sig(r))[:300] for r in res]})
